@@ -39,6 +39,8 @@ impl C13 {
         boot.intercept_stdout(true);
         boot.intercept_output(true).expect("intercept output");
         boot.set_binary_input(Xbitstr::from(vec![0x12u8, 0x34, 0x56, 0x78, 0x9a, 0xbc, 0xde, 0xf0, 0x00, 0x41, 0x42, 0x00, 0xff, 0x01])).expect("input");
+        // a second input opened on top of the first one, so that close-bitstr has something to return to
+        boot.eval("|12 34 56 78 9A BC DE F0 00 41 42 00 FF 01| open-bitstr").expect("nested input");
         let _ = boot.set_insn_limit(Some(5_000));
         let _ = boot.set_stack_limit(Some(5_000));
         let words: Vec<String> = boot
@@ -243,6 +245,8 @@ struct Run {
     stack: Vec<Cell>,
     state: String,
     out: String,
+    /// variables whose value carries tags (rendered with the tags)
+    tagged_vars: Vec<String>,
 }
 
 fn run(boot: &Xstate, args: &[Cell], word: &str) -> Result<Run, String> {
@@ -261,13 +265,17 @@ fn run(boot: &Xstate, args: &[Cell], word: &str) -> Result<Run, String> {
     let stack: Vec<Cell> = (0..n).rev().filter_map(|i| xs.get_data(i).cloned()).collect();
     let d = xs.verif_dump();
     let mut state = String::new();
-    for c in &d.heap {
+    let mut tagged_vars = vec![];
+    for (i, c) in d.heap.iter().enumerate() {
         state.push_str(&show_untagged(c));
         state.push(' ');
+        if c.tags().is_some() {
+            tagged_vars.push(format!("cell {}: {}", i, show(c)));
+        }
     }
     state.push_str(&format!("| loops {} frames {} marks {:?}", d.loops.len(), d.frames.len(), d.special));
     let out = xs.read_stdout().unwrap_or_default();
-    Ok(Run { res, stack, state, out })
+    Ok(Run { res, stack, state, out, tagged_vars })
 }
 
 impl C13 {
@@ -357,6 +365,11 @@ impl C13 {
         }
         if a.state != b.state {
             return self.fail(obs, idx, &word, "variables", case, format!("untagged: {}\n  tagged: {}", truncate(&a.state, 500), truncate(&b.state, 500)));
+        }
+        // nobody attached tags in the untagged run: no variable may end up holding a tagged value (unless it is one of
+        // the values the word itself tags by contract and stores, which then shows on the stack side as well)
+        if !a.tagged_vars.is_empty() {
+            return self.fail(obs, idx, &word, "variable-carries-tags-nobody-attached", case, format!("after the untagged run: {}", truncate(&a.tagged_vars.join("; "), 400)));
         }
         if a.out != b.out {
             return self.fail(obs, idx, &word, "output", case, format!("untagged: {:?}\n  tagged: {:?}", truncate(&a.out, 300), truncate(&b.out, 300)));
